@@ -584,7 +584,9 @@ def single_assignments(fn: ast.AST) -> dict[str, ast.expr]:
             val[n.target.id] = n.value
     mut = mutated_names(fn)
     return {k: v for k, v in val.items() if count.get(k) == 1
-            and k not in params and not creates_object(v) and k not in mut}
+            and k not in params and not creates_object(v) and (
+                k not in mut or isinstance(v, (ast.Subscript, ast.Attribute,
+                                               ast.Name)))}
 
 
 #: method names that change the object they are called on
